@@ -227,7 +227,8 @@ def gen_ws_msg(rng):
     return ("unknown",)
 
 
-def gen_ws_events(rng):
+def gen_ws_events(rng, state=None):
+    """state: a one-element list holding the type of the message in progress across reads (or None)."""
     evs = []
     for _ in range(rng.randint(1, 4)):
         r = rng.random()
@@ -241,8 +242,8 @@ def gen_ws_events(rng):
             evs.append(("pong", b"p"))
         else:
             evs.append(("close", rng.choice([1000, 1001, 1005, 4000]), rng.choice(["", "bye"]), rng.random() < 0.8))
-    # fragments of one message keep their type (wsproto contract)
-    cur = None
+    # fragments of one message keep their type, also across reads (wsproto contract)
+    cur = state[0] if state is not None else None
     out = []
     for e in evs:
         if e[0] == "msg":
@@ -253,6 +254,8 @@ def gen_ws_events(rng):
                 e = ("msg", cur, payload, e[3])
             cur = None if e[3] else e[1]
         out.append(e)
+    if state is not None:
+        state[0] = cur
     return out
 
 
@@ -305,6 +308,7 @@ def ws_case(rng, length=None):
     ext = rng.choice([None, b"permessage-deflate", b""]) if any(n.lower() == b"sec-websocket-extensions" for n, _ in req[1]) else None
     sends = [rng.choice([b"F1", b"FRAME", b"", None]) for _ in range(rng.randint(0, 6))]
     inputs = [req]
+    frag_state = [None]
     n = length if length is not None else rng.randint(1, 7)
     if any(c >= 128 for c in req[3].partition(b"?")[0]) or any(
             c >= 128 for nm, v in req[1] if nm.lower() in (b"connection", b"sec-websocket-extensions", b"sec-websocket-protocol") for c in v):
@@ -312,7 +316,7 @@ def ws_case(rng, length=None):
     for _ in range(n):
         r = rng.random()
         if r < 0.25:
-            inputs.append(("wdata", gen_ws_events(rng)))
+            inputs.append(("wdata", gen_ws_events(rng, frag_state)))
         elif r < 0.31:
             inputs.append(("closed",))
         else:
